@@ -43,7 +43,6 @@ import (
 	"time"
 
 	"github.com/Cloud-Foundations/keymaster/keymasterd/admincache"
-	"github.com/lor00x/goldap/message"
 	ldapsrv "github.com/vjeantet/ldapserver"
 )
 
@@ -68,6 +67,10 @@ var c08ConcFilterRE = regexp.MustCompile(`uid=([^)]*)\)`)
 func (d *c08ConcDir) handleBind(w ldapsrv.ResponseWriter, m *ldapsrv.Message) {
 	w.Write(ldapsrv.NewBindResponse(ldapsrv.LDAPResultSuccess))
 }
+
+// c08AddAttr calls SearchResultEntry.AddAttribute with run-time strings without importing the message
+// package by name (a direct import would make `go test -mod=mod` rewrite /repo's go.mod).
+func c08AddAttr[D ~string, V ~string](add func(D, ...V), name, val string) { add(D(name), V(val)) }
 
 func (d *c08ConcDir) handleSearch(w ldapsrv.ResponseWriter, m *ldapsrv.Message) {
 	r := m.GetSearchRequest()
@@ -99,9 +102,9 @@ func (d *c08ConcDir) handleSearch(w ldapsrv.ResponseWriter, m *ldapsrv.Message) 
 	isMember := d.member[user]
 	d.mu.Unlock()
 	e := ldapsrv.NewSearchResultEntry("uid=" + user + ",o=people")
-	e.AddAttribute("uid", message.AttributeValue(user))
+	c08AddAttr(e.AddAttribute, "uid", user)
 	if isMember {
-		e.AddAttribute("memberOf", message.AttributeValue("cn="+c08ConcAdminGroup+",o=group"))
+		c08AddAttr(e.AddAttribute, "memberOf", "cn="+c08ConcAdminGroup+",o=group")
 	}
 	w.Write(e)
 	w.Write(ldapsrv.NewSearchResultDoneResponse(ldapsrv.LDAPResultSuccess))
